@@ -322,6 +322,19 @@ class Writer(object):
         sub.w(o)
         self.out += sub.out
 
+    def w_field(self, o):
+        """a non-constant field: choice-free by default; in `shared_fields` mode it goes through the same
+        writer as the constants, so that the intern table (py2 't'/'R') and the reference table (3.4+
+        FLAG_REF/'r') are shared between fields and constants as in the interpreter's own writer"""
+        if not getattr(self, "shared_fields", False):
+            return self.w_plain(o)
+        self.w(o)
+
+    def w_field_bytes(self, b_):
+        if not getattr(self, "shared_fields", False):
+            return self.w_plain_bytes(b_)
+        self.w(b_)
+
     def w_code(self, co, consts, flag=False):
         self.tb("c", flag)
         self.i32(co.co_argcount)
@@ -333,10 +346,10 @@ class Writer(object):
             self.i32(co.co_nlocals)
         self.i32(co.co_stacksize)
         self.i32(co.co_flags)
-        self.w_plain_bytes(co.co_code)
+        self.w_field_bytes(co.co_code)
         # the constants: the only part with encoding choices
         self.w(consts)
-        self.w_plain(co.co_names)
+        self.w_field(co.co_names)
         if VER >= (3, 11):
             names = tuple(co.co_varnames) + tuple(n for n in co.co_cellvars if n not in co.co_varnames) + tuple(co.co_freevars)
             kinds = bytearray()
@@ -349,23 +362,23 @@ class Writer(object):
                 if n in co.co_freevars:
                     k |= 0x80
                 kinds.append(k)
-            self.w_plain(names)
+            self.w_field(names)
             self.w_plain_bytes(bytes(kinds))
         else:
-            self.w_plain(co.co_varnames)
-            self.w_plain(co.co_freevars)
-            self.w_plain(co.co_cellvars)
-        self.w_plain(co.co_filename)
-        self.w_plain(co.co_name)
+            self.w_field(co.co_varnames)
+            self.w_field(co.co_freevars)
+            self.w_field(co.co_cellvars)
+        self.w_field(co.co_filename)
+        self.w_field(co.co_name)
         if VER >= (3, 11):
-            self.w_plain(co.co_qualname)
+            self.w_field(co.co_qualname)
         self.i32(co.co_firstlineno)
         if VER >= (3, 10):
-            self.w_plain_bytes(co.co_linetable)
+            self.w_field_bytes(co.co_linetable)
         else:
-            self.w_plain_bytes(co.co_lnotab)
+            self.w_field_bytes(co.co_lnotab)
         if VER >= (3, 11):
-            self.w_plain_bytes(co.co_exceptiontable)
+            self.w_field_bytes(co.co_exceptiontable)
 
 
 def run(R, out, tier="quick"):
@@ -383,6 +396,25 @@ def run(R, out, tier="quick"):
     big = tuple(range(300))
     inner2 = R.mkcode(nested, co_consts=(None, big))
     vals.append(("shared_across_code", (inner2, big, R.mkcode(nested, co_consts=(big, 1)))))
+    # fields sharing the intern / reference tables with the constants (the interpreter's own writer does this:
+    # '' is a singleton, names are interned): an earlier code object's empty line table, code string, name,
+    # file name or names tuple is the *first* occurrence and the constant the back-reference
+    empty = nested.co_name[:0] if PY2 else b""
+    if PY2:
+        lam = R.mkcode(nested, co_lnotab=empty)
+    elif VER >= (3, 10):
+        lam = R.mkcode(nested, co_linetable=empty)
+    else:
+        lam = R.mkcode(nested, co_lnotab=empty)
+    shared_vals = [("fs_lnotab_then_empty", (lam, empty)), ("fs_empty_then_lnotab", (empty, lam)),
+                   ("fs_name_const", (nested, nested.co_name, template.co_names[0])),
+                   ("fs_names_tuple", (template.co_names, nested.co_names, nested)),
+                   ("fs_filename", (template.co_filename, nested)),
+                   ("fs_code_string", (nested, nested.co_code, nested.co_code)),
+                   ("fs_text_and_bytes_empty", (lam, empty, u(""), (empty, u("")))),
+                   ("fs_two_codes", (lam, R.mkcode(lam, co_name=nested.co_filename), empty, nested.co_filename))]
+    shared_tags = set(t_ for t_, _ in shared_vals)
+    vals += shared_vals
     stats = {"values": len(vals), "real_writer": 0, "assembled": 0, "rejected_by_reader": 0, "capped": 0}
     seen = set()
 
@@ -418,6 +450,7 @@ def run(R, out, tier="quick"):
                 return
             budget[0] -= 1
             w = Writer(ov)
+            w.shared_fields = tag in shared_tags
             w.w_code(template, (v,))
             emit(tag, w.out, "asm:" + ",".join("%d=%s" % (k, w.points[k][1][a]) for k, a in sorted(ov.items())), w.textfloat)
             stats["assembled"] += 1
